@@ -452,41 +452,81 @@ def _s_sinks(ctx):
                 ctx.check(any(w_ in guards for w_ in want), "sink/context", q + f" | {kind}", f"the {kind.split(':')[1]} output is not confined to the `{want[0]}` branch (guards: {guards})")
     if unknown:
         ctx.note(f"sink/provenance: {len(unknown)} write() argument(s) not understood ({unknown[:2]}); left to flatten/parses-back (bounded)")
-    # attribute values / children: the recursive steps
-    kg = call_sites(g, lambda c: isinstance(c.func, ast.Name) and c.func.id == "keepGoing")
-    if not kg:
-        raise Abstain("no keepGoing() recursion sites")
-    attr = [(n, c) for n, c in kg if c.args and src(c.args[0]) == vname]
+    # attribute values / children: the recursive steps, BY ROLE - every expression that produces the generator flattening another root, be it a direct _flattenElement(...) call
+    # or a call of a nested forwarding helper (keepGoing(x, ...), flattenInContext(x)): each is resolved to the six arguments _flattenElement finally gets
+    outer = [a_.arg for a_ in f.args.args]
+    if len(outer) != 6:
+        raise Abstain(f"_flattenElement takes {outer}")
+    P_REQ, P_ROOT, P_WRITE, P_SLOTS, P_RF, P_ESC = outer
+    helpers = {}
+    for h in [n_ for n_ in ast.walk(f) if isinstance(n_, ast.FunctionDef) and n_ is not f]:
+        body = [st for st in h.body if not (isinstance(st, ast.Expr) and isinstance(st.value, ast.Constant))]
+        if len(body) == 1 and isinstance(body[0], ast.Return) and isinstance(body[0].value, ast.Call) and call_name(body[0].value) == "_flattenElement" and len(body[0].value.args) == 6 \
+                and not body[0].value.keywords:
+            ha = h.args
+            names = [x.arg for x in ha.args]
+            dfl = dict(zip(names[len(names) - len(ha.defaults):], ha.defaults)) if ha.defaults else {}
+            helpers[h.name] = (names, dfl, body[0].value.args)
+
+    def resolve(c):
+        """the six final arguments of a recursive step, or None"""
+        cn = call_name(c)
+        if cn == "_flattenElement":
+            if len(c.args) == 6 and not c.keywords:
+                return list(c.args)
+            return None
+        if cn in helpers:
+            names, dfl, fin = helpers[cn]
+            m_ = dict(dfl)
+            if len(c.args) > len(names) or any(k.arg not in names for k in c.keywords):
+                return None
+            m_.update(dict(zip(names, c.args)))
+            m_.update({k.arg: k.value for k in c.keywords})
+            if set(m_) != set(names):
+                return None
+            return [m_[a_.id] if isinstance(a_, ast.Name) and a_.id in m_ else a_ for a_ in fin]
+        return None
+    steps = []
+    inside_helpers = {id(x) for hname in helpers for h in [n_ for n_ in ast.walk(f) if isinstance(n_, ast.FunctionDef) and n_.name == hname] for x in ast.walk(h)}
+    for n, c in call_sites(g, lambda c: call_name(c) == "_flattenElement" or call_name(c) in helpers):
+        if id(c) in inside_helpers:
+            continue
+        r6 = resolve(c)
+        if r6 is None:
+            raise Abstain(f"the recursive step `{src(c)[:60]}` could not be resolved to the arguments of _flattenElement")
+        steps.append((n, c, r6))
+    if not steps:
+        raise Abstain("no recursive flattening steps found")
+    for n, c, r6 in steps:
+        ctx.check(src(r6[0]) == P_REQ and src(r6[3]) == P_SLOTS, "recursion/forwarding", q + f" | {src(c)[:40]}",
+                  f"a recursive step passes `{src(r6[0])}` / `{src(r6[3])}` instead of the request and the slot stack of its context")
+    attr = [(n, c, r6) for n, c, r6 in steps if src(r6[1]) == vname]
     ctx.check(len(attr) == 1, "attribute/escaped-outside", q + " | attribute value", f"attribute values are flattened at {len(attr)} sites (one expected)")
-    for n, c in attr:
-        kw = {k.arg: k.value for k in c.keywords}
-        esc = c.args[1] if len(c.args) > 1 else kw.get("dataEscaper")
-        w_ = c.args[3] if len(c.args) > 3 else kw.get("write")
-        ok = isinstance(w_, ast.Call) and call_name(w_) == "writeWithAttributeEscaping" and [src(x) for x in w_.args] == ["write"]
+    for n, c, r6 in attr:
+        w_ = r6[2]
+        ok = isinstance(w_, ast.Call) and call_name(w_) == "writeWithAttributeEscaping" and [src(x) for x in w_.args] == [P_WRITE]
+        if not ok and isinstance(w_, ast.Name):
+            ds = [st.value for st in walk_local(f) if isinstance(st, ast.Assign) and any(isinstance(t, ast.Name) and t.id == w_.id for t in st.targets)]
+            ok = len(ds) == 1 and isinstance(ds[0], ast.Call) and call_name(ds[0]) == "writeWithAttributeEscaping" and [src(x) for x in ds[0].args] == [P_WRITE]
         ctx.check(ok, "attribute/escaped-outside", q + " | attribute value | writer",
                   "an attribute value is flattened with a writer that does not escape for attributes: a double quote or '<' in the value (or in nested tags) ends the attribute")
-        ctx.check(esc is not None and src(esc) == "attributeEscapingDoneOutside", "attribute/escaped-outside", q + " | attribute value | inner escaper",
+        ctx.check(src(r6[5]) == "attributeEscapingDoneOutside", "attribute/escaped-outside", q + " | attribute value | inner escaper",
                   "the inner escaper of an attribute value is not attributeEscapingDoneOutside")
-    for n, c in kg:
-        if (n, c) in attr:
+    for n, c, r6 in steps:
+        if any(c is c2 for _, c2, _ in attr):
             continue
-        kw = {k.arg: k.value for k in c.keywords}
-        esc = c.args[1] if len(c.args) > 1 else kw.get("dataEscaper")
-        if c.args and src(c.args[0]) == "root.children" and any(src(g.node(t).ast) == "root.tagName" and lab == "T" for t, lab in g.edge_guards(n)):
-            ctx.check(esc is not None and src(esc) == "escapeForContent" and "write" not in kw and len(c.args) <= 2, "children/content-escaper", q + " | children of a named tag",
+        if src(r6[1]) == "root.children" and any(src(g.node(t).ast) == "root.tagName" and lab == "T" for t, lab in g.edge_guards(n)):
+            ctx.check(src(r6[5]) == "escapeForContent" and src(r6[2]) == P_WRITE, "children/content-escaper", q + " | children of a named tag",
                       "children of a tag do not switch back to escapeForContent (text inside a tag inside an attribute would lose one level of quoting)")
         else:
-            ok = esc is None and "write" not in kw and len(c.args) == 1
-            ctx.check(ok, "recursion/no-escaper-override", q + f" | keepGoing({src(c.args[0])[:30] if c.args else ''})", "a recursive flattening step overrides the escaper / writer of its context")
-    kgf = ctx.func(FL, "_flattenElement.keepGoing")
-    outer = [a_.arg for a_ in f.args.args]
-    rets = [s_ for s_ in walk_local(kgf) if isinstance(s_, ast.Return)]
-    ok = len(rets) == 1 and isinstance(rets[0].value, ast.Call) and call_name(rets[0].value) == "_flattenElement" and \
-        [src(a_) for a_ in rets[0].value.args] == [outer[0], kgf.args.args[0].arg] + outer[2:]
-    ctx.check(ok, "recursion/forwarding", Q + "_flattenElement.keepGoing", "keepGoing does not forward (request, newRoot, write, slotData, renderFactory, dataEscaper) in the parameter order of _flattenElement")
-    defaults = {a_.arg: src(d) for a_, d in zip(kgf.args.args[-len(kgf.args.defaults):], kgf.args.defaults)} if kgf.args.defaults else {}
-    ctx.check(all(defaults.get(k) == k for k in ("dataEscaper", "renderFactory", "write")), "recursion/forwarding", Q + "_flattenElement.keepGoing | defaults",
-              "keepGoing's escaper / writer do not default to those of the enclosing context")
+            ok = src(r6[5]) == P_ESC and src(r6[2]) == P_WRITE
+            ctx.check(ok, "recursion/no-escaper-override", q + f" | step into {src(r6[1])[:30]}", "a recursive flattening step overrides the escaper / writer of its context")
+    for hname, (names, dfl, fin) in helpers.items():
+        # a forwarding helper keeps the context for whatever it does not take as a parameter, and its defaults are the context's
+        fixed = [(i_, a_) for i_, a_ in enumerate(fin) if not (isinstance(a_, ast.Name) and a_.id in names)]
+        okf = all(src(a_) == outer[i_] for i_, a_ in fixed) and all(src(d) == k for k, d in dfl.items())
+        ctx.check(okf, "recursion/forwarding", Q + "_flattenElement." + hname,
+                  f"{hname} does not forward (request, newRoot, write, slotData, renderFactory, dataEscaper) of the enclosing context in the parameter order of _flattenElement")
 
 
 def _fe_escapers(ctx):
@@ -1303,6 +1343,8 @@ def _escaper_comment(ctx):
 
 
 MUTANTS = [
+    Mutant("children-flattened-directly-with-the-context-escaper", FL, '            yield keepGoing(root.children, escapeForContent)\n', '            yield _flattenElement(request, root.children, write, slotData, renderFactory, dataEscaper)\n', expect_rule="children/content-escaper"),
+    Mutant("attribute-value-flattened-directly-with-the-plain-writer", FL, '            yield keepGoing(\n                v, attributeEscapingDoneOutside, write=writeWithAttributeEscaping(write)\n            )\n', '            yield _flattenElement(request, v, write, slotData, renderFactory, attributeEscapingDoneOutside)\n', expect_rule="attribute/escaped-outside"),
     Mutant("comment-escaped-in-two-halves", FL, "        write(escapedComment(root.data))\n", "        half = len(root.data) // 2\n        write(escapedComment(root.data[:half]))\n        write(escapedComment(root.data[half:]))\n", expect_rule="sink/whole-data-escaper"),
     Mutant("cdata-escaped-line-by-line", FL, "        write(escapedCDATA(root.data))\n", "        for line in root.data.splitlines(True):\n            write(escapedCDATA(line))\n", expect_rule="sink/whole-data-escaper"),
     Mutant("revert-F28c-tag-frame-never-popped", FL, "            yield keepGoing(root.children)\n            slotData.pop()\n            return\n", "            yield keepGoing(root.children)\n            return\n",
@@ -1343,6 +1385,8 @@ MUTANTS = [
     Mutant("comment-close-before-data", FL, "        write(b\"<!--\")\n        write(escapedComment(root.data))\n        write(b\"-->\")", "        write(b\"<!--\")\n        write(b\"-->\")\n        write(escapedComment(root.data))"),
 ]
 SILENT = [
+    Silent("children-flattened-by-a-direct-recursive-call", FL, '            yield keepGoing(root.children, escapeForContent)\n', '            yield _flattenElement(request, root.children, write, slotData, renderFactory, escapeForContent)\n'),
+    Silent("attribute-value-flattened-by-a-direct-call-with-a-named-quoting-writer", FL, '            yield keepGoing(\n                v, attributeEscapingDoneOutside, write=writeWithAttributeEscaping(write)\n            )\n', '            quoting = writeWithAttributeEscaping(write)\n            yield _flattenElement(request, v, quoting, slotData, renderFactory, attributeEscapingDoneOutside)\n'),
     Silent("text-escaped-in-two-pieces", FL, "        write(dataEscaper(root))\n", "        for part in (root[:4096], root[4096:]):\n            write(dataEscaper(part))\n"),
     Silent("cdata-data-through-a-local-name", FL, "        write(escapedCDATA(root.data))\n", "        wholeData = root.data\n        write(escapedCDATA(wholeData))\n"),
     Silent("tag-frame-popped-in-both-arms", FL, "            write(b\" />\")\n        # The slots filled on this tag are in scope for its own attributes and\n        # children only.\n        slotData.pop()\n",
